@@ -705,7 +705,9 @@ def hostile_script(seed, idx, fam="hostile"):
         if k < 0.95:
             return peer("hdr", type=0, plen=0, to="A")
         return peer("reset", rel=rng.choice([0, 1, -1]), to="A")
-    flood_at = rng.choice([-1, -1, -1, 3, 8])
+    # (only when the hostile peer has no connection of its own with A: an established connection whose every datagram
+    #  the local transport refuses is outside the properties' environment)
+    flood_at = rng.choice([-1, -1, 3, 8]) if mode == "none" else -1
     for r in range(rng.choice([10, 30, 60])):
         if r == flood_at:
             # a SYN flood from a source the socket cannot answer (its transport refuses every datagram to it): the
@@ -935,8 +937,58 @@ def dup_syn_live_script(seed, idx, fam="sockpeer"):
     return script(f"{fam}/{idx}", seed * 71 + idx, socks, st, net={"latency_us": 1000},
                   info={"family": fam, "variant": "dup_syn_live", "end": end, "backlog": backlog_from_source()}, mute=["poll"])
 
+def backlog_clash_script(seed, idx, fam="sockpeer"):
+    """A SYN waits in the backlog (nobody accepts); its connection id is the one the socket's next outgoing connect to
+    the same peer takes; that connect completes; only then an accept call arrives.  The waiting SYN clashes with the
+    live connection and must be dropped without touching it."""
+    rng = random.Random(seed * 1000003 + idx * 53 + 31)
+    cid0 = rng.choice([10, 65534, 2 * rng.randrange(50, 30000)])
+    isn0 = 1000
+    st = [peer("syn", cid=(cid0 - 1) % 65536, seq=5000, to="A"), sleep(1010)]
+    if rng.random() < 0.5:      # other SYNs in front of / behind it
+        st += [peer("syn", cid=20000, seq=5001, to="A"), sleep(1010)]
+    st += [{"op": "connect", "sock": "A", "to": "P", "ep": "c0"}, sleep(1010),
+           peer("raw", bytes=_hdr_bytes(2, cid0, 7000, isn0), to="A"), sleep(1010),
+           {"op": "wait", "what": "connect", "timeout_us": 1 * SEC},
+           {"op": "read", "ep": "c0"}, sleep(rng.choice([1010, 200000])),
+           {"op": "accept", "sock": "A", "ep": "s"}, sleep(rng.choice([1010, 1 * SEC])),
+           {"op": "accept", "sock": "A", "ep": "s2"}, sleep(2 * SEC),
+           {"op": "drop", "ep": "c0"}, {"op": "abandon", "ep": "s"}, {"op": "drop", "ep": "s"},
+           {"op": "abandon", "ep": "s2"}, {"op": "drop", "ep": "s2"}, sleep(20 * SEC)]
+    socks = [sock("A", A_ADDR, rand=[cid0, isn0, 9000, 9001, 9002], link_mtu=576, max_retx=2, inactivity_ms=rng.choice([5000, 10000])),
+             sock("P", P_ADDR, raw=True)]
+    return script(f"{fam}/{idx}", seed * 79 + idx, socks, st, net={"latency_us": 1000},
+                  info={"family": fam, "variant": "backlog_clash", "backlog": backlog_from_source()}, mute=["poll"])
+
+def abandon_hole_script(seed, idx, fam="sockpeer"):
+    """Three or four connects to one peer are pending; an older one completes (its slot becomes a hole below the
+    others); the application gives up one of the newer ones; the remaining ones must still complete."""
+    rng = random.Random(seed * 1000003 + idx * 59 + 37)
+    cid0 = rng.choice([10, 65530, 2 * rng.randrange(50, 30000)])
+    n = rng.choice([3, 3, 4])
+    isns = [1000 * (i + 1) for i in range(n)]
+    cids = [(cid0 + 2 * i) % 65536 for i in range(n)]
+    st = [{"op": "connect", "sock": "A", "to": "P", "ep": f"c{i}"} for i in range(n)] + [sleep(1010)]
+    first = rng.choice([0, 0, 1])
+    st += [peer("raw", bytes=_hdr_bytes(2, cids[first], 7000 + first, isns[first]), to="A"), sleep(1010)]
+    rest = [i for i in range(n) if i != first]
+    gone = rng.choice([i for i in rest if i > first] or rest)
+    st += [{"op": "abandon", "ep": f"c{gone}"}, sleep(1010)]
+    for i in rest:
+        if i != gone:
+            st += [peer("raw", bytes=_hdr_bytes(2, cids[i], 7000 + i, isns[i]), to="A"), sleep(1010)]
+    st += [{"op": "wait", "what": "connect", "timeout_us": 2 * SEC}]
+    for i in range(n):
+        st += [{"op": "abandon", "ep": f"c{i}"}, {"op": "drop", "ep": f"c{i}"}]
+    st.append(sleep(20 * SEC))
+    socks = [sock("A", A_ADDR, rand=[cid0] + isns + [9000, 9001], link_mtu=576, max_retx=2, inactivity_ms=3000),
+             sock("P", P_ADDR, raw=True)]
+    return script(f"{fam}/{idx}", seed * 83 + idx, socks, st, net={"latency_us": 1000},
+                  info={"family": fam, "variant": "abandon_hole", "n": n, "first": first, "gone": gone,
+                        "backlog": backlog_from_source()}, mute=["poll"])
+
 def sockpeer_script(seed, idx, fam="sockpeer"):
-    return clash_pending_script(seed, idx, fam) if idx % 2 == 0 else dup_syn_live_script(seed, idx, fam)
+    return [clash_pending_script, dup_syn_live_script, backlog_clash_script, abandon_hole_script][idx % 4](seed, idx, fam)
 
 # ------------------------------------------------------------------ a delayed (not lost) MTU probe behind a lost segment (C01, C06)
 def probe_delay_script(seed, idx, fam="probe_delay"):
